@@ -14,6 +14,10 @@ pub assume_specification<Idx> [Range::<Idx>::is_empty] (r: &Range<Idx>) -> (b: b
 pub proof fn vx_axiom_range_is_empty_usize(r: Range<usize>)
     ensures vx_range_is_empty(r) == !(r.start < r.end) {}
 
+pub assume_specification<T, A> [VecDeque::<T, A>::shrink_to_fit] (v: &mut VecDeque<T, A>)
+    where A: std::alloc::Allocator,
+    ensures final(v)@ == old(v)@;
+
 // R2b: unreachable_unchecked() becomes a call that must be proved unreachable.
 #[verifier::external_body]
 pub fn vx_unreachable() -> !
@@ -38,5 +42,23 @@ pub mod archetype {
         fn clone(&self) -> (r: Self) ensures r == *self { unimplemented!() }
     }
     impl<R: Registry> Copy for IdentifierRef<R> {}
+}
+'''
+
+PRELUDE_HASHMAP = r'''
+// R7: hashbrown::HashMap is an opaque type whose abstract value is a (possibly infinite-domain)
+// map; `get` is assumed to be lookup in that map (assumption A3).
+pub struct FnvBuildHasher;
+#[verifier::external_body]
+#[verifier::accept_recursive_types(K)]
+#[verifier::accept_recursive_types(V)]
+#[verifier::accept_recursive_types(S)]
+pub struct HashMap<K, V, S> { p: PhantomData<(K, V, S)> }
+impl<K, V, S> HashMap<K, V, S> {
+    pub uninterp spec fn view(&self) -> IMap<K, V>;
+    #[verifier::external_body]
+    pub fn get(&self, k: &K) -> (r: Option<&V>)
+        ensures r == (if self@.dom().contains(*k) { Some(&self@[*k]) } else { None::<&V> })
+    { unimplemented!() }
 }
 '''
